@@ -233,6 +233,8 @@ def run(prog: Program, rep, tier: str) -> None:
                 if r_:
                     return (r_, const_value(x.slice))
             return None
+        from .common import unitem
+        e = unitem(e)          # `(a0, a1) = a` unpacking shows up as __item__(a, k): the same as a[k]
         atoms = atoms_of(e, True)
         form = set()
         for op, l, r in atoms:
@@ -306,14 +308,18 @@ def run(prog: Program, rep, tier: str) -> None:
     for si in ff.order:
         st = si.stmt
         # form A: if any(dominates(e, new) for e in self.entries): return False
-        if isinstance(st, ast.If) and isinstance(st.test, ast.Call) and isinstance(st.test.func, ast.Name) and st.test.func.id == "any" \
-                and len(st.test.args) == 1 and isinstance(st.test.args[0], (ast.GeneratorExp, ast.ListComp)):
-            g = st.test.args[0]
+        #         or: if not any(..): <accepting path>  else: return False
+        t_any, refusing, other = (st.test, st.body, st.orelse) if isinstance(st, ast.If) else (None, None, None)
+        if isinstance(t_any, ast.UnaryOp) and isinstance(t_any.op, ast.Not):
+            t_any, refusing, other = t_any.operand, st.orelse, st.body
+        if isinstance(st, ast.If) and isinstance(t_any, ast.Call) and isinstance(t_any.func, ast.Name) and t_any.func.id == "any" \
+                and len(t_any.args) == 1 and isinstance(t_any.args[0], (ast.GeneratorExp, ast.ListComp)):
+            g = t_any.args[0]
             if len(g.generators) == 1 and not g.generators[0].ifs and iter_is_entries(g.generators[0].iter):
                 elem = {n.id for n in ast.walk(g.generators[0].target) if isinstance(n, ast.Name)}
                 pu = pred_use(g.elt, elem)
-                ret_false = len(st.body) >= 1 and isinstance(st.body[-1], ast.Return) and isinstance(st.body[-1].value, ast.Constant) and st.body[-1].value.value is False
-                if pu is not None and ret_false and len(_nolog(st.body)) == 1 and not st.orelse:
+                ret_false = len(refusing) >= 1 and isinstance(refusing[-1], ast.Return) and isinstance(refusing[-1].value, ast.Constant) and refusing[-1].value.value is False
+                if pu is not None and ret_false and len(_nolog(refusing)) == 1 and (not other or refusing is st.orelse):
                     refusal = (si.index, pu, st)
         # form B: for e in self.entries: if dominates(e, new): return False
         if isinstance(st, ast.For) and iter_is_entries(st.iter) and len(st.body) == 1 and isinstance(st.body[0], ast.If) and not st.orelse:
@@ -446,12 +452,18 @@ def run(prog: Program, rep, tier: str) -> None:
     # the append must be unconditional on the accepting path: its facts are exactly those after the refusal test
     if appends:
         a0 = appends[0][0]
-        after_refusal = [s for s in ff.order if s.index > ridx and not s.loops and id(s.stmt) not in {id(n) for n in ast.walk(rstmt)}]
+        # (the accepting path may be the other branch of the refusal test itself: `if not any(..): <accept> else: return False`)
+        refusing_nodes = {id(n) for n in ast.walk(rstmt)}
+        if isinstance(rstmt, ast.If) and isinstance(rstmt.test, ast.UnaryOp) and isinstance(rstmt.test.op, ast.Not):
+            refusing_nodes = {id(n) for b_ in rstmt.orelse for n in ast.walk(b_)} | {id(rstmt)}
+        after_refusal = [s for s in ff.order if s.index > ridx and not s.loops and id(s.stmt) not in refusing_nodes]
         base_facts = after_refusal[0].facts if after_refusal else []
         ok_append = ok_append and sorted(a0.facts) == sorted(base_facts)
     rep.check(ok_append, "filter-3-append-once", fi.qualname, short(appends[0][0].stmt) if appends else "",
               "the new entry is appended exactly once, unconditionally on the accepting path, after the removal", fi.loc(appends[0][0].stmt) if appends else fi.loc())
     last = fi.node.body[-1]
+    if isinstance(last, ast.If) and last is rstmt and isinstance(last.test, ast.UnaryOp) and isinstance(last.test.op, ast.Not) and last.body:
+        last = last.body[-1]       # the accepting path is the body of `if not any(..):`
     rep.check(isinstance(last, ast.Return) and last in true_returns and len(true_returns) == 1, "filter-3-return-true", fi.qualname, short(last),
               "the accepting path ends with the single `return True`", fi.loc(last))
 
